@@ -52,6 +52,8 @@ struct Tracked {
 
     Tracked() : magic(LIVE), val(0) { reg().add(0, +1); }
     Tracked(long v) : magic(LIVE), val(v) { reg().add(v, +1); }           // NOLINT: implicit on purpose
+    // two constructor arguments of different types (what emplace_*(args...) has to forward one by one): the value is their sum
+    Tracked(long hi, int lo) : magic(LIVE), val(hi + lo) { reg().add(val, +1); }
     // A container builds its elements as T(args...): with braces, T{args...} would pick THIS constructor whenever the arguments
     // form a list of longs (what happens to std::vector<int>{3, 7}), and the element would not be T(args...) any more.
     Tracked(std::initializer_list<long> l) : magic(LIVE), val(l.size() ? *l.begin() : 0) { reg().fail("BRACE_INITIALISED"); reg().add(val, +1); }
